@@ -51,14 +51,14 @@ func (w Weibull) gammaIPow(i, pow float64) float64 {
 // parameter as follows:
 //
 //	If 0 < K < 1, LogProb returns +Inf.
-//	If K == 1, LogProb returns 0.
+//	If K == 1, LogProb returns -log(Lambda).
 //	If K > 1, LogProb returns -Inf.
 func (w Weibull) LogProb(x float64) float64 {
 	if x < 0 {
 		return math.Inf(-1)
 	}
 	if x == 0 && w.K == 1 {
-		return 0
+		return -math.Log(w.Lambda)
 	}
 	return math.Log(w.K) - math.Log(w.Lambda) + (w.K-1)*(math.Log(x)-math.Log(w.Lambda)) - math.Pow(x/w.Lambda, w.K)
 }
